@@ -15,9 +15,10 @@ What is mirrored, quirk by quirk:
   `torch.where` on the `(S,h,w,C)` permutation = lexicographic `(sample,row,col,channel)`;
   point = `(x = col, y = row)`, value = `cms[s,c,row,col]`.
 * `find_local_peaks(refinement="integral")`: crop index `sample*C + channel` into the
-  `(S*C,1,h,w)` reshape, `make_centered_bboxes` + kornia `crop_and_resize` for an odd patch size
-  `p = 2r+1` = the `p×p` window centred on the cell sampled at integer offsets with **zeros
-  outside the map**; `integral_regression`: `gv[k] = k - (p-1)/2 = k - r`,
+  `(S*C,1,h,w)` reshape, `make_centered_bboxes` + kornia `crop_and_resize` for patch size `p`
+  = `p×p` samples at `c - (p-1)/2 + k` with **zeros outside the map**: integer positions (the
+  cells) for odd `p`, half-integer positions (mean of the four surrounding cells) for even `p`
+  (`cropZ`, checked against kornia on both); `integral_regression`: `gv[k] = k - (p-1)/2`,
   `x̂ = Σ gv[b]·P[a][b] / Σ P`, `ŷ = Σ gv[a]·P[a][b] / Σ P`.  A zero patch sum (the code then
   produces inf/NaN) is `none`.
 * `find_global_peaks_rough`, **as it is** (`globalRoughAsIs`): x = first argmax over columns of the
@@ -28,9 +29,8 @@ What is mirrored, quirk by quirk:
   non-NaN rows, crops taken from flat map `valid_idx[k]`, offsets scattered back with
   `refined[valid_idx] += offsets`, reshape to `(S,C,2)`.
 
-Even patch sizes (half-integer sampling → bilinear mixing) and `p = 1` (kornia's perspective
-solve is singular, the code raises) are outside the model: the patch is given by its half-width
-`r`, `p = 2r+1`.
+`p = 1`: the model gives offset 0 (the formula's value); the code raises inside kornia (the
+perspective solve of a degenerate box is singular) — finding F-C06p1, replayed by the harness.
 -/
 namespace SleapVerif.Peaks
 
@@ -106,30 +106,42 @@ def sumN (f : Nat → R) : Nat → R
 def zeroPadAt (h w : Nat) (img : Nat → Nat → R) (i j : Int) : R :=
   if inB h w i j then img i.toNat j.toNat else 0
 
-/-- the `(2r+1)²` patch centred on cell `(cx, cy)`; entry `(a,b)` = row `cy-r+a`, column `cx-r+b` -/
-def patch (h w : Nat) (img : Nat → Nat → R) (r cx cy : Nat) (a b : Nat) : R :=
-  zeroPadAt h w img ((cy : Int) - r + a) ((cx : Int) - r + b)
+/-- kornia `crop_and_resize` of a `p×p` box from `make_centered_bboxes` (corners at `c ∓ (p-1)/2`,
+`align_corners=True`, bilinear, zero padding) on a zero-padded image `Z`; entry `(a,b)` is the
+sample at row `cy - (p-1)/2 + a`, column `cx - (p-1)/2 + b`:
+* odd `p`: an integer position — the cell itself;
+* even `p`: a half-integer position in both axes — the mean of the four surrounding cells
+  (rows `cy - p/2 + a`, `+1`; columns `cx - p/2 + b`, `+1`). -/
+def cropZ (Z : Int → Int → R) (p cx cy a b : Nat) : R :=
+  let i0 : Int := (cy : Int) - ((p / 2 : Nat) : Int) + a
+  let j0 : Int := (cx : Int) - ((p / 2 : Nat) : Int) + b
+  if p % 2 = 1 then Z i0 j0
+  else (Z i0 j0 + Z i0 (j0 + 1) + Z (i0 + 1) j0 + Z (i0 + 1) (j0 + 1)) / ((4 : Nat) : R)
 
-/-- `gv = arange(p) - (p-1)/2` for `p = 2r+1` -/
-def gv (r k : Nat) : R := (k : R) - (r : R)
+/-- the `p×p` patch cropped around cell `(cx, cy)` of a map -/
+def patch (h w : Nat) (img : Nat → Nat → R) (p cx cy : Nat) (a b : Nat) : R :=
+  cropZ (zeroPadAt h w img) p cx cy a b
 
-def patchSum (r : Nat) (P : Nat → Nat → R) : R :=
-  sumN (fun a => sumN (fun b => P a b) (2*r+1)) (2*r+1)
+/-- `gv = arange(p) - (p-1)/2` -/
+def gv (p k : Nat) : R := (k : R) - ((p - 1 : Nat) : R) / ((2 : Nat) : R)
 
-def xNum (r : Nat) (P : Nat → Nat → R) : R :=
-  sumN (fun a => sumN (fun b => gv r b * P a b) (2*r+1)) (2*r+1)
+def patchSum (p : Nat) (P : Nat → Nat → R) : R :=
+  sumN (fun a => sumN (fun b => P a b) p) p
 
-def yNum (r : Nat) (P : Nat → Nat → R) : R :=
-  sumN (fun a => sumN (fun b => gv r a * P a b) (2*r+1)) (2*r+1)
+def xNum (p : Nat) (P : Nat → Nat → R) : R :=
+  sumN (fun a => sumN (fun b => gv p b * P a b) p) p
+
+def yNum (p : Nat) (P : Nat → Nat → R) : R :=
+  sumN (fun a => sumN (fun b => gv p a * P a b) p) p
 
 /-- `integral_regression` on one patch; `none` when the normaliser is 0 -/
-def integralOffsets (r : Nat) (P : Nat → Nat → R) : Option (R × R) :=
-  let z := patchSum r P
-  if z < 0 ∨ 0 < z then some (xNum r P / z, yNum r P / z) else none
+def integralOffsets (p : Nat) (P : Nat → Nat → R) : Option (R × R) :=
+  let z := patchSum p P
+  if z < 0 ∨ 0 < z then some (xNum p P / z, yNum p P / z) else none
 
-/-- refined point `rough + offsets` -/
-def refinePoint (h w : Nat) (img : Nat → Nat → R) (r x y : Nat) : Option (R × R) :=
-  (integralOffsets r (patch h w img r x y)).map fun o => ((x : R) + o.1, (y : R) + o.2)
+/-- refined point `rough + offsets`, `integral_patch_size = p` -/
+def refinePoint (h w : Nat) (img : Nat → Nat → R) (p x y : Nat) : Option (R × R) :=
+  (integralOffsets p (patch h w img p x y)).map fun o => ((x : R) + o.1, (y : R) + o.2)
 
 structure RPeak (R : Type) where
   pt : Option (R × R)
@@ -138,14 +150,14 @@ structure RPeak (R : Type) where
   channel : Nat
 deriving DecidableEq
 
-/-- `find_local_peaks(refinement="integral", integral_patch_size=2r+1)` applied to the rough list:
+/-- `find_local_peaks(refinement="integral", integral_patch_size=p)` applied to the rough list:
 crop `k` is taken from flat map `sample*C + channel` -/
-def refineLocal (r : Nat) (b : Batch R) (ps : List (Peak R)) : List (RPeak R) :=
+def refineLocal (q : Nat) (b : Batch R) (ps : List (Peak R)) : List (RPeak R) :=
   ps.map fun p =>
-    ⟨refinePoint b.h b.w (b.flat (p.sample * b.C + p.channel)) r p.x p.y, p.val, p.sample, p.channel⟩
+    ⟨refinePoint b.h b.w (b.flat (p.sample * b.C + p.channel)) q p.x p.y, p.val, p.sample, p.channel⟩
 
-def localPeaks (big thr : R) (r : Nat) (b : Batch R) : List (RPeak R) :=
-  refineLocal r b (localPeaksRough big thr b)
+def localPeaks (big thr : R) (q : Nat) (b : Batch R) : List (RPeak R) :=
+  refineLocal q b (localPeaksRough big thr b)
 
 /-! ## global peaks -/
 
@@ -197,7 +209,7 @@ def scatterStep (acc : List (GRPeak R)) (kr : Nat × Option (R × R)) : List (GR
 
 /-- `find_global_peaks(refinement="integral")`, flattened `(S*C)` view, written with the code's
 `valid_idx` gather / scatter: `rough` is any rough detector (as-is or repaired). -/
-def globalRefineFlat (rough : Nat → Nat → GPeak R) (r : Nat) (b : Batch R) : List (GRPeak R) :=
+def globalRefineFlat (rough : Nat → Nat → GPeak R) (q : Nat) (b : Batch R) : List (GRPeak R) :=
   let n := b.S * b.C
   let roughFlat : List (GPeak R) := (List.range n).map fun k => rough (k / b.C) (k % b.C)
   let base : List (GRPeak R) := roughFlat.map fun g => ⟨g.pt, g.pt.map fun _ => none, g.val⟩
@@ -205,14 +217,14 @@ def globalRefineFlat (rough : Nat → Nat → GPeak R) (r : Nat) (b : Batch R) :
   -- crops: flat map `valid_idx[k]`, centred on `valid_peaks[k]`
   let refined : List (Option (R × R)) := validIdx.map fun k =>
     match (roughFlat.getD k ⟨none, 0⟩).pt with
-    | some (x, y) => refinePoint b.h b.w (b.flat k) r x y
+    | some (x, y) => refinePoint b.h b.w (b.flat k) q x y
     | none => none
   -- refined_peaks[valid_idx] += offsets
   (validIdx.zip refined).foldl scatterStep base
 
 /-- `refined_peaks.reshape(S, C, 2)[s, c]` -/
-def globalPeaks (rough : Nat → Nat → GPeak R) (r : Nat) (b : Batch R) (s c : Nat) : GRPeak R :=
-  (globalRefineFlat rough r b).getD (s * b.C + c) ⟨none, none, 0⟩
+def globalPeaks (rough : Nat → Nat → GPeak R) (q : Nat) (b : Batch R) (s c : Nat) : GRPeak R :=
+  (globalRefineFlat rough q b).getD (s * b.C + c) ⟨none, none, 0⟩
 
 /-- row-major `(S,C,h,w)` tensor → batch (driver helper) -/
 def Batch.ofArray (S C h w : Nat) (a : Array R) : Batch R :=
